@@ -43,7 +43,8 @@ THEOREMS = ['C05_rest_isothermal_steady', 'C05_primeq_column_refines_spec', 'C05
             'C05_sw_model_refines_spec', 'C05_sw_model_jet_steady_partial', 'C05_sw_model_hyps_satisfiable',
             'C05_sw_concrete_refines_spec', 'C05_sw_concrete_hyps_satisfiable',
             'C05_whole_state_rest_isothermal_steady_moist', 'C05_whole_state_rest_moist_hyps_satisfiable',
-            'C05_whole_state_refines_spec', 'C05_whole_state_solid_body_steady_partial']
+            'C05_whole_state_refines_spec', 'C05_whole_state_solid_body_steady_partial',
+            'C05_whole_state_rest_isothermal_steady_moist_modal', 'C05_whole_state_rest_moist_modal_hyps_satisfiable']
 LEVEL = 'proof'
 LEVEL_TEXT = ('machine-checked theorems (Coq), every field, every layer count, every level set: the nodal column algebra of '
               'the implementation (explicit + implicit) equals the documented vertical discretisation of the continuous '
@@ -722,6 +723,10 @@ def r_whole_state_rest(ctx, a):
     tot = [fe[k] + fi[k] for k in range(4)]
     if moist:
         # ---- the named table hypotheses of C05_whole_state_rest_isothermal_steady_moist, on the implementation's own operators ----
+        err1 = float(np.max(np.abs(to_nodal(g, one) - 1.0)))
+        ctx.table_obligation('H_one: to_nodal of the (0,0)-only spectrum of the constant is the constant one', err1 <= 2.0 ** -36, {'error': err1})
+        ctx.exact('whole-state rest (moist): the humidity spectrum is q0 times the (0,0)-only spectrum (Hq_modal)',
+                  bool(np.all(qm == q0 * one[None]) and np.count_nonzero(one) == 1 and one[0, 0] != 0), True)
         qn = to_nodal(g, qm)
         ctx.table_obligation('H_q_uniform: to_nodal of the uniform-humidity spectrum is q0 at every node', float(np.max(np.abs(qn - q0))) <= 2.0 ** -36 * abs(q0) + 1e-300,
                              {'error': float(np.max(np.abs(qn - q0)))})
